@@ -15,9 +15,10 @@ from vlib.core import EPS32, Facet, Violation, check_close, eps_of
 
 PROPERTY = "C12"
 MANIFEST = {
-    "text": "Generated-input search (Hypothesis) over D in {2,3}, shapes 5..12, batch sizes 1..3, float32/float64, every "
-            "accepted form of the spacing argument (scalar, per-axis list/tensor, (1,D), (N,1), (N,D)), all six finite-difference "
-            "modes and mode='bspline' (stride 1..4, scalar or per-axis). Affine fields u(x)=Ax+b sampled at x=index*spacing are "
+    "text": "Generated-input search (Hypothesis) plus fixed enumerated grids (mode x D x spacing form x dtype x N) over D in {2,3}, "
+            "shapes 5..12 (occasionally up to 24), batch sizes 1..4, float32/float64, contiguous and strided inputs, every "
+            "accepted form of the spacing argument (float/int/0-d tensor scalar, per-axis list/tuple/tensor, (1,D), (N,1), (N,D)), "
+            "all six finite-difference modes and mode='bspline' (stride 1..4, int or per-axis list/tuple). Affine fields u(x)=Ax+b sampled at x=index*spacing are "
             "compared with the analytic Jacobian, determinant (with/without identity), divergence, curl and Lie bracket computed in "
             "float64 numpy (everywhere for forward_central_backward, one sample inside the faces for the other schemes); second "
             "derivatives of quadratic fields with 2Q two samples inside the faces; arbitrary key requests (both spellings of mixed "
@@ -73,6 +74,12 @@ def spacing_arg(form, sp):
     """The `spacing` argument in the form named by `form`; sp is a list of N per-item lists [sx, sy(, sz)]."""
     if form == "scalar":
         return float(sp[0][0])
+    if form == "int":
+        return int(sp[0][0])
+    if form == "scalar_tensor":
+        return torch.tensor(sp[0][0], dtype=torch.float64)
+    if form == "NxD_f32":
+        return torch.tensor(sp, dtype=torch.float32)
     if form == "vector":
         return [float(v) for v in sp[0]]
     if form == "tuple":
@@ -88,24 +95,56 @@ def spacing_arg(form, sp):
     raise ValueError(form)
 
 
-SPFORMS = ["scalar", "vector", "tuple", "vector_tensor", "1xD", "Nx1", "NxD", "NxD"]
+ALL_SPFORMS = ["scalar", "int", "scalar_tensor", "vector", "tuple", "vector_tensor", "1xD", "Nx1", "NxD", "NxD_f32"]
+SPFORMS = ALL_SPFORMS + ["NxD"]
+ISO_FORMS = ("scalar", "int", "scalar_tensor", "Nx1")
+
+
+def fixed_spacing(form, D, N, k=0):
+    """Deterministic spacing of the given form for the enumerated grids (k varies the values)."""
+    base = [[0.5, 1.25, 2.0], [1.5, 0.75, 0.4]][k % 2][:D]
+    if form == "scalar" or form == "scalar_tensor":
+        return [[0.75 + 0.5 * (k % 2)] * D] * N
+    if form == "int":
+        return [[2.0 + (k % 2)] * D] * N
+    if form == "Nx1":
+        return [[0.5 + 0.75 * n] * D for n in range(N)]
+    if form in ("NxD", "NxD_f32"):
+        return [[round(v * (1 + 0.6 * n), 3) for v in (base if n % 2 == 0 else base[::-1])] for n in range(N)]
+    return [base] * N
+
+
+def fixed_coef(k, m):
+    return [round(((7 * i + 3 * k) % 11 - 5) * 0.17, 2) for i in range(m)]
 
 
 @st.composite
 def spacings_for(draw, D, N, lo, hi):
-    form = draw(st.sampled_from(SPFORMS))
+    form = draw(st.sampled_from(SPFORMS + (["Nx1", "NxD", "NxD"] if N > 1 else [])))
     one = gen.logfloat(lo, hi)
-    if form == "scalar":
+    if form in ("scalar", "scalar_tensor"):
         s = draw(one)
+        sp = [[s] * D] * N
+    elif form == "int":
+        s = float(draw(st.integers(max(1, math.ceil(lo)), max(1, math.floor(hi)))))
         sp = [[s] * D] * N
     elif form == "Nx1":
         sp = [[draw(one)] * D for _ in range(N)]
-    elif form == "NxD":
+    elif form in ("NxD", "NxD_f32"):
         sp = [[draw(one) for _ in range(D)] for _ in range(N)]
     else:
         v = [draw(one) for _ in range(D)]
         sp = [v] * N
     return form, [list(s) for s in sp]
+
+
+def as_layout(t, layout):
+    """Same values, optionally as a non-contiguous view (every second element of a wider buffer)."""
+    if layout != "strided":
+        return t
+    buf = torch.zeros(t.shape[:-1] + (2 * t.shape[-1],), dtype=t.dtype)
+    buf[..., ::2] = t
+    return buf[..., ::2]
 
 
 def interior(D, margin):
@@ -143,11 +182,13 @@ def expect_dtype(t, dt, what):
 @st.composite
 def affine_cases(draw):
     D = draw(gen.dims())
-    N = draw(st.sampled_from([1, 1, 2, 2, 3]))
-    shape = draw(st.lists(st.integers(5, 12 if D == 2 else 9), min_size=D, max_size=D))
+    N = draw(st.sampled_from([1, 1, 2, 2, 3, 3, 4]))
+    hi = draw(st.sampled_from([12, 12, 12, 24])) if D == 2 else draw(st.sampled_from([9, 9, 9, 13]))
+    shape = draw(st.lists(st.integers(5, hi), min_size=D, max_size=D))
     form, sp = draw(spacings_for(D, N, 0.25, 4.0))
     return {
         "D": D, "N": N, "shape": shape, "dtype": draw(gen.dtypes()), "mode": draw(st.sampled_from(MODES + [None])),
+        "layout": draw(st.sampled_from(["contiguous", "contiguous", "strided"])),
         "spform": form, "sp": sp,
         "A": [coef_lists(draw, D * D, -2.0, 2.0) for _ in range(N)], "a": [coef_lists(draw, D, -5.0, 5.0) for _ in range(N)],
         "B": [coef_lists(draw, D * D, -2.0, 2.0) for _ in range(N)], "b": [coef_lists(draw, D, -5.0, 5.0) for _ in range(N)],
@@ -155,23 +196,14 @@ def affine_cases(draw):
 
 
 def affine_grid(tier):
-    """Every mode x D x spacing form x dtype once, with fixed generic coefficients and N = 2."""
-    forms = ["scalar", "vector", "tuple", "vector_tensor", "1xD", "Nx1", "NxD"]
-    for mode, D, form, dtype in itertools.product(MODES + [None], (2, 3), forms, ("float32", "float64")):
-        N = 2
-        base = [0.5, 1.25, 2.0][:D]
-        if form == "scalar":
-            sp = [[0.75] * D] * N
-        elif form == "Nx1":
-            sp = [[0.5] * D, [1.5] * D]
-        elif form == "NxD":
-            sp = [base, [3.0, 0.4, 0.8][:D]]
-        else:
-            sp = [base] * N
-        coef = lambda k, m: [round(((7 * i + 3 * k) % 11 - 5) * 0.17, 2) for i in range(m)]  # noqa: E731
-        yield {"D": D, "N": N, "shape": [5, 7, 6][:D], "dtype": dtype, "mode": mode, "spform": form, "sp": [list(x) for x in sp],
-               "A": [coef(1 + n, D * D) for n in range(N)], "a": [coef(3 + n, D) for n in range(N)],
-               "B": [coef(5 + n, D * D) for n in range(N)], "b": [coef(7 + n, D) for n in range(N)]}
+    """Every mode x D x spacing form x dtype x N in {1,2,3} once, with fixed generic coefficients."""
+    k = 0
+    for mode, D, form, dtype, N in itertools.product(MODES + [None], (2, 3), ALL_SPFORMS, ("float32", "float64"), (1, 2, 3)):
+        k += 1
+        yield {"D": D, "N": N, "shape": [[5, 7, 6], [6, 5, 8]][k % 2][:D], "dtype": dtype, "mode": mode, "spform": form,
+               "sp": [list(x) for x in fixed_spacing(form, D, N, k)], "layout": "strided" if k % 5 == 0 else "contiguous",
+               "A": [fixed_coef(1 + n + k, D * D) for n in range(N)], "a": [fixed_coef(3 + n, D) for n in range(N)],
+               "B": [fixed_coef(5 + n, D * D) for n in range(N)], "b": [fixed_coef(7 + n + k, D) for n in range(N)]}
 
 
 def run_affine(case):
@@ -187,8 +219,8 @@ def run_affine(case):
         un, x = poly_field(shape, sp[n], case["A"][n], case["a"][n])
         vn, _ = poly_field(shape, sp[n], case["B"][n], case["b"][n])
         us.append(un), vs.append(vn), xs.append(x)
-    u = torch.tensor(np.stack(us), dtype=dt)
-    v = torch.tensor(np.stack(vs), dtype=dt)
+    u = as_layout(torch.tensor(np.stack(us), dtype=dt), case.get("layout"))
+    v = as_layout(torch.tensor(np.stack(vs), dtype=dt), case.get("layout"))
     u0, v0 = u.clone(), v.clone()
     A = np.array(case["A"], dtype=np.float64).reshape(N, D, D)
     B = np.array(case["B"], dtype=np.float64).reshape(N, D, D)
@@ -286,10 +318,11 @@ def run_affine(case):
         raise Violation("input_modified", "a derivative function modified its input vector field")
 
     offd = all(any(abs(A[n, i, j]) > 0.02 for i in range(D) for j in range(D) if i != j) for n in range(N))
-    nt = offd and (aniso(sp) or per_item(sp) or case["spform"] in ("scalar", "Nx1"))
+    nt = offd and (aniso(sp) or per_item(sp) or case["spform"] in ISO_FORMS)
     return {"ratio": worst, "nontrivial": nt,
-            "labels": [f"D={D}", f"N={N}", f"mode={mode}", f"sp={case['spform']}", case["dtype"],
-                       "aniso" if aniso(sp) else "iso", "per_item_spacing" if per_item(sp) else "shared_spacing"]}
+            "labels": [f"D={D}", f"N={N}", f"mode={mode}", f"sp={case['spform']}", case["dtype"], case.get("layout", "contiguous"),
+                       "aniso" if aniso(sp) else "iso", "per_item_spacing" if per_item(sp) else "shared_spacing",
+                       "large" if max(shape) > 12 else "small"]}
 
 
 # ---------------------------------------------------------------------------------------
@@ -309,7 +342,22 @@ def quadratic_cases(draw):
         "A": [coef_lists(draw, D * D, -1.0, 1.0) for _ in range(N)], "a": [coef_lists(draw, D, -2.0, 2.0) for _ in range(N)],
         "Q": [coef_lists(draw, nq, -0.5, 0.5) for _ in range(N)],  # upper triangles of the D symmetric matrices
         "request": draw(st.sampled_from(["order", "which", "curvature"])),
+        "layout": draw(st.sampled_from(["contiguous", "contiguous", "strided"])),
     }
+
+
+def quadratic_grid(tier):
+    """Every mode x D x dtype x N in {1,2,3} x request kind once; spacing forms cycle."""
+    k = 0
+    for mode, D, dtype, N, request in itertools.product(MODES + [None], (2, 3), ("float32", "float64"), (1, 2, 3),
+                                                        ("order", "which", "curvature")):
+        k += 1
+        form = ALL_SPFORMS[k % len(ALL_SPFORMS)]
+        nq = D * D * (D + 1) // 2
+        yield {"D": D, "N": N, "shape": [[5, 7, 6], [6, 5, 8]][k % 2][:D], "dtype": dtype, "mode": mode, "spform": form,
+               "sp": [list(x) for x in fixed_spacing(form, D, N, k)], "layout": "strided" if k % 5 == 0 else "contiguous",
+               "A": [fixed_coef(1 + n + k, D * D) for n in range(N)], "a": [fixed_coef(3 + n, D) for n in range(N)],
+               "Q": [[round(0.4 * q + 0.03, 3) for q in fixed_coef(2 + n + k, nq)] for n in range(N)], "request": request}
 
 
 def sym_from_upper(vals, D):
@@ -334,7 +382,7 @@ def run_quadratic(case):
     spacing = spacing_arg(case["spform"], sp)
     Qs = [sym_from_upper(case["Q"][n], D) for n in range(N)]
     us = [poly_field(shape, sp[n], case["A"][n], case["a"][n], Qs[n])[0] for n in range(N)]
-    u = torch.tensor(np.stack(us), dtype=dt)
+    u = as_layout(torch.tensor(np.stack(us), dtype=dt), case.get("layout"))
     maxu = np.abs(np.stack(us)).reshape(N, D, -1).max(-1)
     allkeys = [f"d{CH[c]}/d{AX[i]}{AX[j]}" for c in range(D) for i in range(D) for j in range(D)]
     if case["request"] == "order":
@@ -424,7 +472,8 @@ def subset_cases(draw):
         "D": D, "N": N, "shape": shape, "dtype": draw(gen.dtypes()), "mode": mode, "spform": form, "sp": sp,
         "which": which[0] if as_str else which, "order": draw(st.sampled_from([None, None, 1, 2])),
         "key": draw(st.integers(0, 10 ** 6)),
-        "stride": None,
+        "stride": None, "stride_form": draw(st.sampled_from(["list", "tuple"])),
+        "which_form": draw(st.sampled_from(["list", "list", "tuple"])),
     }
     if mode == "bspline":
         case["stride"] = draw(st.one_of(st.none(), st.integers(1, 3), st.lists(st.integers(1, 3), min_size=D, max_size=D)))
@@ -441,8 +490,10 @@ def run_subset(case):
     u = torch.tensor(hash_noise((N, D) + shape, case["key"], -1.0, 1.0), dtype=dt)
     kw = dict(mode=mode, spacing=spacing)
     if case["stride"] is not None:
-        kw["stride"] = case["stride"]
+        kw["stride"] = stride_arg(case)
     which, order = case["which"], case["order"]
+    if case.get("which_form") == "tuple" and not isinstance(which, str):
+        which = tuple(which)
     hmin = np.array(case["sp"], dtype=np.float64).min(0)  # per axis, smallest over the batch
     umax = float(u.abs().max())
 
@@ -493,6 +544,22 @@ def run_subset(case):
                 f = full[f"d{CH[c]}/d{s}"]
                 worst = max(worst, check_close(sd[s][:, c:c + 1], f, rounding_bound(s), "spatial_vs_flow",
                                                f"spatial_derivatives '{s}' channel {c} (mode={mode})"))
+    # spatial_derivatives(): default request of a given order, and the order filter on an explicit request
+    o = 2 if order == 2 else 1
+    sd = U.spatial_derivatives(u, order=o, **kw)
+    all_o = ["".join(p) for p in itertools.product(AX[:D], repeat=o)]
+    if set(sd.keys()) != set(all_o):
+        raise Violation("keys_spatial", f"spatial_derivatives(order={o}) returned keys {list(sd)} instead of {all_o}")
+    for s_ in all_o:
+        for c in range(D):
+            worst = max(worst, check_close(sd[s_][:, c:c + 1], full[f"d{CH[c]}/d{s_}"], rounding_bound(s_), "spatial_vs_flow",
+                                           f"spatial_derivatives(order={o}) '{s_}' channel {c} (mode={mode})"))
+    if skeys and order is not None:
+        mixed_req = skeys + [AX[0], AX[1] * 2]
+        sd = U.spatial_derivatives(u, which=mixed_req, order=order, **kw)
+        want_sd = [k for k in mixed_req if len(k) == order]
+        if set(sd.keys()) != set(want_sd):
+            raise Violation("keys_spatial", f"spatial_derivatives(which={mixed_req}, order={order}) returned keys {list(sd)}")
     mixed = any(len(set(k.split("/d")[1])) > 1 for k in want)
     return {"ratio": worst, "nontrivial": len(want) >= 2,
             "labels": [f"D={D}", f"N={N}", f"mode={mode}", f"order={order}", "mixed" if mixed else "unmixed",
@@ -504,6 +571,11 @@ def run_subset(case):
 
 # ---------------------------------------------------------------------------------------
 # facet 4: B-spline mode against an independent tensor-product evaluator
+
+
+def stride_arg(case):
+    st_ = case["stride"]
+    return tuple(st_) if isinstance(st_, list) and case.get("stride_form") == "tuple" else st_
 
 
 def bspline_reference(coef, stride, order):
@@ -534,7 +606,23 @@ def bspline_cases(draw):
         "A": coef_lists(draw, D * D, -1.0, 1.0), "a": coef_lists(draw, D, -2.0, 2.0),
         "key": draw(st.integers(0, 10 ** 6)),
         "which": draw(key_requests(D)),
+        "stride_form": draw(st.sampled_from(["list", "tuple"])),
+        "layout": draw(st.sampled_from(["contiguous", "contiguous", "strided"])),
     }
+
+
+def bspline_grid(tier):
+    """Every stride form x D x spacing form x dtype x N in {1,2,3} once."""
+    k = 0
+    strides = [(None, "list"), (1, "list"), (2, "list"), (3, "list"), ([2, 1, 3], "list"), ([1, 3, 2], "tuple")]
+    for (stride, sform), D, form, dtype, N in itertools.product(strides, (2, 3), ALL_SPFORMS, ("float32", "float64"), (1, 2, 3)):
+        k += 1
+        letters = AX[:D]
+        which = [f"d{CH[k % D]}/d{letters[k % D]}", letters[(k + 1) % D] + letters[k % D], f"d{CH[:D]}/d{letters[(k // 2) % D] * 2}"]
+        yield {"D": D, "N": N, "shape": [[5, 7, 6], [6, 4, 8]][k % 2][:D], "dtype": dtype, "spform": form,
+               "sp": [list(x) for x in fixed_spacing(form, D, N, k)], "stride": stride[:D] if isinstance(stride, list) else stride,
+               "stride_form": sform, "content": "noise+affine", "A": fixed_coef(k, D * D), "a": fixed_coef(k + 1, D), "key": k,
+               "which": which, "layout": "strided" if k % 5 == 0 else "contiguous"}
 
 
 def run_bspline(case):
@@ -553,12 +641,12 @@ def run_bspline(case):
     if "affine" in case["content"]:
         for n in range(N):
             coef[n] += poly_field(shape, [1.0] * D, np.array(case["A"]) / (n + 1), case["a"])[0]
-    u = torch.tensor(coef, dtype=dt)
+    u = as_layout(torch.tensor(coef, dtype=dt), case.get("layout"))
     coef = u.double().numpy()  # the coefficients deepali sees
     u0 = u.clone()
     kw = dict(mode="bspline", spacing=spacing)
     if stride is not None:
-        kw["stride"] = stride
+        kw["stride"] = stride_arg(case)
     oshape = tuple((n - 3) * s for n, s in zip(shape, sl[::-1]))
     maxc = np.abs(coef).reshape(N, D, -1).max(-1)
     worst = 0.0
@@ -622,7 +710,8 @@ def run_bspline(case):
     orders = {len(k.split("/d")[1]) for k in which}
     return {"ratio": worst, "nontrivial": "noise" in case["content"] and (max(sl) > 1 or aniso(sp)),
             "labels": [f"D={D}", f"N={N}", f"sp={case['spform']}", case["dtype"], case["content"],
-                       "stride=None" if stride is None else ("stride=int" if isinstance(stride, int) else "stride=list"),
+                       "stride=None" if stride is None else ("stride=int" if isinstance(stride, int) else f"stride={case.get('stride_form', 'list')}"),
+                       case.get("layout", "contiguous"),
                        f"max_stride={max(sl)}", "aniso_stride" if len(set(sl)) > 1 else "iso_stride",
                        "order2" if 2 in orders else "order1", "per_item_spacing" if per_item(sp) else "shared_spacing"]}
 
@@ -659,24 +748,27 @@ def selftest():
 
 FACETS = [
     Facet("affine_first_order", run_affine, strategy=affine_cases,
-          rule="affine u=Ax+a, v=Bx+b at x=index*spacing; D, shape 5..12, N 1..3, dtype, 6 FD modes + default, 7 spacing forms; "
+          rule="affine u=Ax+a, v=Bx+b at x=index*spacing; D, shape 5..12 (sometimes up to 24), N 1..4, dtype, 6 FD modes + default, 10 spacing forms, contiguous/strided input; "
                "flow_derivatives/jacobian_matrix/jacobian_dict/jacobian_det(+-identity)/divergence/curl/lie_bracket vs analytic; "
-               "plus the complete grid mode x D x spacing form x dtype (196 fixed cases); "
+               "plus the complete grid mode x D x spacing form x dtype x N in 1..3 (840 fixed cases); "
                "non-trivial = every item has a non-zero off-diagonal of A and the spacing is anisotropic, per-item or isotropic-form",
-          quick=1000, thorough=24000, shards=16, quick_shards=4,
+          quick=700, thorough=32000, shards=16, quick_shards=4,
           enumerate=affine_grid, exhaustive_tiers=("quick", "thorough")),
     Facet("quadratic_second_order", run_quadratic, strategy=quadratic_cases,
           rule="quadratic fields, all order-2 keys (order=2 / explicit list / unmixed only), values 2Q two samples inside the faces, "
-               "both spellings of mixed keys equal; non-trivial = all |Q| entries > 0.004 and max shape >= 6",
-          quick=700, thorough=16000, shards=16, quick_shards=2),
+               "both spellings of mixed keys equal; plus the grid mode x D x dtype x N in 1..3 x request kind (252 fixed cases); non-trivial = all |Q| entries > 0.004 and max shape >= 6",
+          quick=500, thorough=20000, shards=16, quick_shards=2,
+          enumerate=quadratic_grid, exhaustive_tiers=("quick", "thorough")),
     Facet("key_subsets", run_subset, strategy=subset_cases,
           rule="hash-noise fields, random key requests (1-6 entries: explicit, multi-channel, shorthand, duplicates, str or list, "
                "optional order filter) in every mode incl. bspline vs the complete order-1 + order-2 request and vs "
                "spatial_derivatives on all channels; non-trivial = at least two keys returned",
-          quick=900, thorough=20000, shards=16, quick_shards=2),
+          quick=600, thorough=24000, shards=16, quick_shards=2),
     Facet("bspline_mode", run_bspline, strategy=bspline_cases,
           rule="coefficient lattices (noise / affine / both), shapes 4..9, stride None/int/per-axis list in 1..4, all spacing forms; "
                "requested derivatives of order <= 2, Jacobian, determinant, divergence, curl vs tensor-product reference spline; "
+               "plus the grid stride form x D x spacing form x dtype x N in 1..3 (720 fixed cases); "
                "non-trivial = noise content and (stride > 1 or anisotropic spacing)",
-          quick=600, thorough=16000, shards=16, quick_shards=2),
+          quick=400, thorough=20000, shards=16, quick_shards=2,
+          enumerate=bspline_grid, exhaustive_tiers=("quick", "thorough")),
 ]
